@@ -19,7 +19,7 @@ type Property struct {
 	Title     string
 	Scenarios func(tier string) []*engine.Scenario
 	// Extra runs non-exploration parts (e.g. C19 static rule). It returns failures and a description for evidence.
-	Extra func(tier string) ([]engine.Failure, map[string]any)
+	Extra       func(tier string) ([]engine.Failure, map[string]any)
 	Assumptions []string
 	// NoReproduce: failures are reported without requiring an identical replay (C19: a nondeterministic transition is the
 	// violation itself and need not fail the same way twice)
@@ -45,21 +45,21 @@ var classNames = []string{"user_tx", "slash", "env(reward/gift/native)", "block"
 
 // Alpha is a declarative alphabet; Ops() expands it against the current state with trivial-rejection guards.
 type Alpha struct {
-	Dels       []int
-	Vals       []int
-	Denoms     []string
-	DelAmts    []string
-	UndAmts    []string
-	UndAll     bool
-	RedAmts    []string
-	RedAll     bool
-	Claim      bool
-	SlashVals  []int
-	SlashF     []string
-	BlockDts   []time.Duration
-	Rewards    []world.Op // fully specified reward / gift ops
-	Extra      func(n *engine.Node) []world.Op
-	NoGuards   bool
+	Dels      []int
+	Vals      []int
+	Denoms    []string
+	DelAmts   []string
+	UndAmts   []string
+	UndAll    bool
+	RedAmts   []string
+	RedAll    bool
+	Claim     bool
+	SlashVals []int
+	SlashF    []string
+	BlockDts  []time.Duration
+	Rewards   []world.Op // fully specified reward / gift ops
+	Extra     func(n *engine.Node) []world.Op
+	NoGuards  bool
 }
 
 func (a Alpha) Ops(n *engine.Node) []world.Op {
@@ -190,8 +190,10 @@ func opUnd(d, v int, denom, amt string) world.Op {
 func opRed(d, v, v2 int, denom, amt string) world.Op {
 	return world.Op{K: world.KRedelegate, D: d, V: v, V2: v2, Denom: denom, Amt: amt}
 }
-func opBlock(units int) world.Op { return world.Op{K: world.KBlock, Dt: int64(time.Duration(units) * U)} }
-func opSlash(v int, f string) world.Op { return world.Op{K: world.KSlash, V: v, F: f} }
+func opBlock(units int) world.Op {
+	return world.Op{K: world.KBlock, Dt: int64(time.Duration(units) * U)}
+}
+func opSlash(v int, f string) world.Op    { return world.Op{K: world.KSlash, V: v, F: f} }
 func opReward(denom, amt string) world.Op { return world.Op{K: world.KReward, Denom: denom, Amt: amt} }
 
 func sortStrings(s []string) { sort.Strings(s) }
